@@ -46,3 +46,35 @@ Example C16_nonvacuous :
   let d := drive 100 [3] (new_reader (bytewise cutw TEOF) 2 false false 0 false CbReadAll) in
   dr_events d = [] /\ dr_err d = RIo EUnexpected /\ dr_partial d = [97; 98].
 Proof. vm_compute. repeat split; reflexivity. Qed.
+
+(* ------------------------------------------------------------------ stream level *)
+Require Import ReaderAux ReaderMoreProofs.
+
+(* C16, read side, at stream level ([cut_monitor], coq/model/Reader.v): the wire
+   bytes of a frame sequence the spec accepts completely are cut after ANY number
+   [cut] of bytes, the transport then reports io.EOF or fails ([t]), under every
+   chunking of the bytes that do arrive and all caller buffer sizes: the canonical
+   NextFrame / read-to-EOF loop delivers the frames wholly before the cut exactly
+   as the spec says, reports nothing of the cut frame as a message and hands
+   nothing of it to the control callback, and its final error is not a clean
+   io.EOF — except when the cut falls on a frame boundary, or inside a header,
+   outside a message. The fuel bound excludes the out-of-fuel artefact
+   wherever the monitor asks for a definite error. *)
+Theorem C16_cut_stream : forall c fs cut t s bufs fuel,
+  wf_cfg c -> Forall wf_sframe fs -> sr_out (spec_run c 0 None [] fs) = OClean ->
+  (cut <= length (wire fs))%nat ->
+  wf_src s -> tl s = t -> flat s = firstn cut (wire fs) -> (cut + 2 <= fuel)%nat ->
+  let d := drive fuel bufs (new_reader s (c_state c) false (c_check_utf8 c) (c_max c) (c_ext c) CbReadAll) in
+  cut_monitor c true fs (N.of_nat cut) (match t with TFail => true | TEOF => false end) (dr_events d) (dr_err d) = true.
+Proof. exact cut_stream. Qed.
+Print Assumptions C16_cut_stream.
+
+(* the same holds for EVERY frame sequence, valid or not: when a frame wholly
+   before the cut breaks a rule, the loop stops there with the spec's error class *)
+Theorem C16_cut_stream_any : forall c fs cut t s bufs fuel,
+  wf_cfg c -> Forall wf_sframe fs -> (cut <= length (wire fs))%nat ->
+  wf_src s -> tl s = t -> flat s = firstn cut (wire fs) -> (cut + 2 <= fuel)%nat ->
+  let d := drive fuel bufs (new_reader s (c_state c) false (c_check_utf8 c) (c_max c) (c_ext c) CbReadAll) in
+  cut_monitor c true fs (N.of_nat cut) (match t with TFail => true | TEOF => false end) (dr_events d) (dr_err d) = true.
+Proof. exact cut_stream_any. Qed.
+Print Assumptions C16_cut_stream_any.
